@@ -1,3 +1,4 @@
+import TmcgProps.C15Key
 import TmcgProps.C15Cgjkr
 import TmcgProofs.DkgAgree
 import TmcgProofs.DkgRunAgree
